@@ -230,6 +230,8 @@ package discovery
 //@        && arg(0) == ret(call (*gorm.DB).Where #1) && arg(call (*gorm.DB).Where #1, 1) == any("id = ?")
 //@        && len(arg(call (*gorm.DB).Where #1, 2)) == 1 && arg(call (*gorm.DB).Where #1, 2)[0] == any(record.ID)
 //@        && arg(call (*gorm.DB).Where #1, 0) == ret(call (*gorm.DB).Model #1) && arg(call (*gorm.DB).Model #1, 0) == tx
+// while going through the records every update so far succeeded (a failure ends the transaction at once)
+//@   loop 1 invariant !did(call (*gorm.DB).Update #1) || isNilIface(ret(call (*gorm.DB).Update #1).Error)
 //@   ensures [every-given-record-is-flagged] isNilIface(result) ==> $done1
 //@   ensures [a-failed-update-is-reported] did(call (*gorm.DB).Update #1) && !isNilIface(ret(call (*gorm.DB).Update #1).Error) ==> !isNilIface(result)
 //@ func (*sqlStore).updateValidated
